@@ -472,7 +472,14 @@ fn build_dict(k: &str, inner: &Ty, vals: &[V], var: u64) -> ArrayRef {
             keys.push(if mode == 3 && row % 2 == 1 { Some(0) } else { None });
             continue;
         }
-        let pos = if mode == 2 { None } else { dict.iter().position(|d| d == v) };
+        // "one entry per row" (mode 2) only while the entries still fit the key type; afterwards re-use
+        // existing entries (pools are small, so the distinct values always fit)
+        let cap = match k {
+            "i8" => 120,
+            "u8" => 250,
+            _ => usize::MAX,
+        };
+        let pos = if mode == 2 && dict.len() < cap { None } else { dict.iter().position(|d| d == v) };
         match pos {
             Some(p) => keys.push(Some(p)),
             None => {
